@@ -24,7 +24,9 @@ def one(b, rnd, stack, pkt, pd, rules, d, strat, klass, cm=None):
     if cm is None:
         cm = ContextManager(Context(id='c', description='', interface_id='i', parser_id=stack, ruleset=rules))
     bits = b2s(pkt)
-    res_ = with_timeout(lambda: cm.compress(Buffer(pkt, len(pkt) * 8), direction=d, match_strategy=strat))
+    # the strategy may be given as the enum member or as its string value (MatchStrategy is a str enum: 'first' == MatchStrategy.FIRST)
+    strat_arg = strat if (len(pkt) + len(rules)) % 3 else str.__str__(strat.value)
+    res_ = with_timeout(lambda: cm.compress(Buffer(pkt, len(pkt) * 8), direction=d, match_strategy=strat_arg))
     out = obs_bits(res_)
     from schc_run import bytes_cm_compress
     bytes_cm_compress(b, klass, stack, pkt, d, strat == MatchStrategy.FIRST, rules, res_)
@@ -74,6 +76,20 @@ def run(rep, tier, seed):
                 rep.hist['ruleset-with-fragmentation-rule'] = rep.hist.get('ruleset-with-fragmentation-rule', 0) + 1
             for strat in (MatchStrategy.FIRST, MatchStrategy.BEST):
                 one(b, rnd, stack, pkt, pd, rules, d, strat, 'select:%s:%s' % (stack, strat.value))
+    # large datagrams: every candidate of BEST is longer than 65535 bits
+    import packets as P
+    for k in range(2 if tier == 'quick' else 12):
+        src, dst = rnd.randbytes(16), rnd.randbytes(16)
+        c_, _ = P.coap(rnd, payload=rnd.randbytes(rnd.choice([8200, 9000, 12000])))
+        u_ = P.udp(rnd, c_, csum=lambda x: P.udp_checksum_v6(src, dst, x))
+        pkt = P.ipv6(rnd, u_, 17, src, dst)
+        from schc_run import parser_for
+        pd = parser_for('IPv6-UDP-CoAP').parse(Buffer(pkt, len(pkt) * 8))
+        d = rnd.choice([DI.UP, DI.DOWN])
+        pd.direction = d
+        rules = gen_ruleset(rnd, pd, n=3, with_default=True, match_prob=1.0, kinds=('vs', 'ns', 'lsb'))
+        for strat in (MatchStrategy.FIRST, MatchStrategy.BEST):
+            one(b, rnd, 'IPv6-UDP-CoAP', pkt, pd, rules, d, strat, 'select-large:%s' % strat.value)
     # one long-lived manager answering both directions and both strategies in turn, rules with Up / Dw alternatives
     from p_c18 import dir_rule
     from schc_util import prefix_free_ids
